@@ -138,9 +138,13 @@ pub fn run_bin(bin: &str, s: &Scratch, cwd: &str, argv: &[String], seed: u64) ->
     cmd.env("USER", ["root", "alice", "builder"][((h >> 16) % 3) as usize]);
     cmd.env("HOME", ["/root", "/home/alice", "/nonexistent"][((h >> 24) % 3) as usize]);
     cmd.env("COLUMNS", ["80", "200", "20"][((h >> 32) % 3) as usize]);
-    match cmd.output() {
+    match crate::proc::run(&mut cmd, std::time::Duration::from_secs(60)) {
+        Ok(o) if o.timed_out => BinRun {
+            status: -3,
+            stderr: "killed after 60 s (the run did not terminate)".to_string(),
+        },
         Ok(o) => BinRun {
-            status: o.status.code().unwrap_or(-1),
+            status: o.code.unwrap_or(-1),
             stderr: String::from_utf8_lossy(&o.stderr).chars().take(400).collect(),
         },
         Err(e) => BinRun {
